@@ -6,6 +6,13 @@
 //! by the inactivity time-out, and is then restarted against the store rebuilt from the recorded
 //! operation log: at 1-3 cuts of the log (probe restarts) and at its end (a full next incarnation,
 //! with the registration paths chosen afresh).
+//!
+//! Half of the incarnations run with a short, finite inactivity time-out (15 / 40 ms of virtual time)
+//! and scripts that let virtual time pass in steps of 0.5x..1.5x of it: stretches in which the lanes
+//! are silent for more than one time-out while a remote keeps the read task awake (a request every
+//! half time-out), so that the write task casts its stop vote and the vote stays incomplete, then a
+//! lane event that rescinds it. One body in ten (map updates, value sets) is *empty* - valid Recon
+//! for `()`, `None`, `Extant` - and is placed in the lane's history by position (`oracle::Placing`).
 
 mod lanes;
 mod oracle;
@@ -49,12 +56,19 @@ fn run_case(rng: &mut Rng, out: &mut CaseOut, focus: Focus, generations: u32, ma
         for l in 0..lanes.len() {
             out.count(&format!("lanes/{}", facet(&lanes[l], p.dynamic[l])));
         }
-        out.sig(&(p.dynamic.clone(), p.ending.name(), p.steps.len()));
+        out.sig(&(p.dynamic.clone(), p.ending.name(), p.steps.len(), p.timeout_ms));
         let obs = run_incarnation(&p, &base, rng);
         if let Some(why) = obs.stuck.first() {
             out.inconclusive(format!("stuck: {why}"));
         }
         out.count(&format!("ending/{}", p.ending.name()));
+        out.count(&match p.timeout_ms {
+            Some(t) => format!("inactive-timeout/{t}ms"),
+            None => "inactive-timeout/never".to_string(),
+        });
+        if obs.ended_during_script.is_some() {
+            out.count("runtime-ended-during-script");
+        }
         if obs.crashed {
             out.count("crashes");
         }
